@@ -1499,7 +1499,7 @@ func (x *g) corner(d int) string {
 		{2022, "class-expression-operand", "(class{static s=0}).s||$(E);(class{static s=1}).s&&$(E);try{(class{}).x=E;$(1)}catch(e){$(e)}"},
 		{2022, "class-expression-effects", "{let V=class{static x=$(E)}}void class{static{$(E)}};if(class extends $(Object){}){}(function(a=class{static{$(E)}}){})();$(E)"},
 		{5, "same-constant-null-check", "(function(V){$(V===null||V===null,V===undefined||V===undefined,V!==undefined&&V!==undefined,V===null||V===undefined,V!==null&&V!==void 0)})(UNDEFNULL)"},
-		{5, "bang-comment-block", "{var V=E;if(V>1e9){/*!c*/}$(1);while(V>1e9){/*!c*/}$(2);if(V){/*!c*/}else{$(3)}do{/*!c*/}while(V>1e9);$(4)}"},
+		{5, "bang-comment-block", "{var V=E;if(V>1e9){/*!c*/}$(1);while(typeof V==\"x\"){/*!c*/}$(2);if(V){/*!c*/}else{$(3)}do{/*!c*/}while(typeof V==\"x\");$(4)}"},
 		{5, "labelled-function-block", "if(E){l:function lf(){}}"},
 		{2015, "shorthand-globals", "$({undefined},{Infinity},{NaN})"},
 		{5, "shadowed-globals", "$((function(undefined){return undefined})(E),(function(NaN){return NaN?1:2})(E),(function(undefined,a){return a===null||a===undefined})(E,E),(function(Infinity){return Infinity})(E))"},
